@@ -300,6 +300,24 @@ class LazyMixin:
 
     # ------------------------------------------------------------ numpy calls
     def b_numpy_arange(self, args, kw, st, n):
+        args = list(args) + ([kw["step"]] if "step" in kw and len(args) == 2 else [])
+        if any(isinstance(x, (float, fl.SFloat)) for x in args):
+            # np.arange(lo, hi, 1) with a fractional start (coordinate labels): lo + i for i < ceil(hi - lo)
+            lo, hi = args[0], args[1]
+            step = args[2] if len(args) > 2 else 1
+            if isinstance(lo, fl.SFloat):
+                v_ = z3.simplify(lo.v)
+                if z3.is_rational_value(v_) and z3.simplify(lo.k == fl.FIN) is not None and z3.is_true(z3.simplify(lo.k == fl.FIN)):
+                    lo = float(v_.as_fraction())
+            if not (isinstance(lo, float) and step == 1 and not isinstance(hi, (float, fl.SFloat))):
+                raise Unsupported("np.arange with float arguments (line %d)" % n.lineno)
+            import math
+            fl_lo = math.floor(lo)
+            frac = lo - fl_lo
+            hi_z = zi(to_int(hi))
+            cnt = hi_z - fl_lo     # ceil(hi - lo) for an integer hi and lo = floor(lo) + frac, 0 <= frac < 1
+            cnt = z3.simplify(z3.If(cnt < 0, z3.IntVal(0), cnt))
+            return LArr("f", [cnt], lambda ix, st2, lo=lo: fl.add(fl.F(lo), fl.F(zi(ix[0]))), None, "arange_f")
         a = [to_int(x) for x in args]
         if len(a) == 1:
             lo, hi, step = 0, a[0], 1
